@@ -58,6 +58,12 @@ def gen_exprs(rnd, n):
             ("'1.2.3'.version_compare('>=1.2')", True), ("'a' + 'b' == 'ab'", True), ("'b' > 'a'", True), ("'abc'[1]" if False else "'x' in 'axb'", True),
             ("{'b': 1, 'a': 2}.get('a')", 2), ("{'b': 1}.get('z', 9)", 9), ("{'b': 1}.has_key('b')", True), ("[1, 2, 3].contains(2)", True), ("[3, 1, 2].length()", 3), ("[1, [2, 3]].get(1)", [2, 3]),
             ("7.is_odd()", True), ("8.is_even()", True), ("7.to_string()", '7'), ("true.to_int()", 1), ("true.to_string('yes', 'no')", 'yes'),
+            # optional arguments given explicitly with a "falsy" value (0, '') are given, not absent; substring is python's s[start:end]
+            ("'foobar'.substring(0, 0)", ''), ("'foobar'.substring(2, 0)", ''), ("'foobar'.substring(-3, 0)", ''), ("'foobar'.substring(0)", 'foobar'), ("'foobar'.substring(3)", 'bar'),
+            ("'foobar'.substring(0, 3)", 'foo'), ("'foobar'.substring(2, -1)", 'oba'), ("'foobar'.substring(64, 0)", ''), ("'foobar'.substring(-64)", 'foobar'), ("'foobar'.substring(4, 2)", ''),
+            ("true.to_string('', 'no')", ''), ("false.to_string('yes', '')", ''), ("false.to_string('yes', 'no')", 'no'), ("true.to_string()", 'true'), ("false.to_string()", 'false'),
+            ("'a b'.split()", ['a', 'b']), ("'a,b'.split(',')", ['a', 'b']), ("''.join(['a', 'b'])", 'ab'), ("'abc'.replace('b', '')", 'ac'), ("{'k': 0}.get('k', 5)", 0), ("{'k': ''}.get('k', 'd')", ''),
+            ("'0'.to_int()", 0), ("0.to_string()", '0'), ("0.is_even()", True), ("'abc'.startswith('')", True), ("'abc'.contains('')", True), ("[0, 1].contains(0)", True), ("[''].contains('')", True),
             ("'a\\nb'.split('\\n').length()", 2), ("'''a\\nb'''.split('\\n').length()", 1), ("'x' == 'x'", True), ('[1, 2] == [1, 2]', True)]
     return out
 
